@@ -7,7 +7,10 @@ import (
 	"time"
 
 	kmip "github.com/ovh/kmip-go"
+	"github.com/ovh/kmip-go/ttlv"
 )
+
+var tGenericValue = reflect.TypeFor[ttlv.Value]()
 
 // Diff compares two messages (or any two values of the same type) by content:
 // nil and empty slices are equal, times compare by instant, big integers by
@@ -64,7 +67,21 @@ func diffVal(a, b reflect.Value, path string) string {
 			}
 			return fmt.Sprintf("%s: nil=%v vs nil=%v", path, a.IsNil(), b.IsNil())
 		}
-		return diffVal(a.Elem(), b.Elem(), path)
+		ae, be := a.Elem(), b.Elem()
+		// a custom attribute value set as a plain Go value comes back wrapped in a generic value under the tag
+		// Attribute Value: same content
+		if (ae.Type() == tGenericValue) != (be.Type() == tGenericValue) {
+			unwrap := func(x reflect.Value) reflect.Value {
+				if x.Type() == tGenericValue {
+					if v := x.Interface().(ttlv.Value); v.Tag == kmip.TagAttributeValue && v.Value != nil {
+						return reflect.ValueOf(v.Value)
+					}
+				}
+				return x
+			}
+			ae, be = unwrap(ae), unwrap(be)
+		}
+		return diffVal(ae, be, path)
 	case reflect.Slice:
 		if a.Len() != b.Len() {
 			return fmt.Sprintf("%s: len %d vs %d", path, a.Len(), b.Len())
